@@ -14,6 +14,12 @@ Gram matrix of the Psi4_lm grid = delta_mm' x (continuous value + theta-midpoint
 error), the round-trip defect in closed form, DiscreteOrthonormal is false on
 the code's grid (T11-T15), spin 0 for ALL l (T16), scipy's linear
 RegularGridInterpolator exact at nodes / on trilinear fields / convex (T17).
+Third module Props/C20c.lean: orthonormality over the sphere for ALL integers
+s, l, m, l', m' (T18, algebraic integration by parts on the Rodrigues form of
+the code's sum in Q[X]; T19 the integer identities), the discrete Gram matrix
+and the round trip for all spins and degrees with an explicit O(1/(Ntheta+1)^2)
+bound and convergence to the identity as Ntheta -> infinity (T20, T21), the
+composite midpoint rule (T22).
 
 Tie: Model/Harm.lean is hand-written; it is compared with the real code
   * maths.sYlm at rational points (c, sn) of the unit circle (Pythagorean
@@ -38,12 +44,12 @@ Tie: Model/Harm.lean is hand-written; it is compared with the real code
     and the compiled interval search of scipy — exactly.
 
 NOT proven (sentinel only, on the REAL code, oracle independent of model and
-code): orthogonality in l beyond the table (l or l' > 12; Gauss-Legendre x
-trapezoid quadrature), a bound on the theta-midpoint error (hence the
-convergence rate of the round trip and of Psi4_lm on an injected pure mode),
-interpolation methods other than 'linear'.  The sentinel also keeps the
-agreement with an independent Wigner-d/Jacobi implementation and with scipy's
-ordinary harmonics at s = 0 as an independent cross-check of the model tie.
+code): the spatial interpolation error of non-trilinear fields and hence the
+convergence of rel['Psi4_lm'] on an injected pure mode with GRID resolution,
+interpolation methods other than 'linear', IEEE round-off.  The sentinel also
+keeps Gauss-Legendre x trapezoid quadrature of all pairs, the agreement with an
+independent Wigner-d/Jacobi implementation and with scipy's ordinary harmonics
+at s = 0 as independent cross-checks of the model tie.
 """
 import math
 from fractions import Fraction
@@ -63,7 +69,14 @@ THEOREMS_B = ["AurelVerif.C20." + t for t in (
     "grid_gram_is_theta_midpoint", "grid_gram_defect", "roundtrip_defect_closed_form", "discrete_orthonormal_is_false",
     "discrete_orthonormal_is_false_spin_m2",
     "theta_midpoint_on_sines", "spin0_all_degrees", "linear_interpolation_exact")]
-LEAN_FILES = ["AurelVerif/Props/C20b.lean", "AurelVerif/Lemmas/C20Beta.lean", "AurelVerif/Lemmas/C20GramZ.lean",
+MODULE_C = "AurelVerif.Props.C20c"
+THEOREMS_C = ["AurelVerif.C20." + t for t in (
+    "orthonormal_all", "gram_integer_identities", "grid_gram_defect_all", "roundtrip_converges", "midpoint_rule")]
+LEAN_FILES = ["AurelVerif/Props/C20c.lean", "AurelVerif/Lemmas/C20JacobiInteg.lean", "AurelVerif/Lemmas/C20JacobiPoly.lean",
+              "AurelVerif/Lemmas/C20Jacobi.lean", "AurelVerif/Lemmas/C20JacobiAll.lean",
+              "AurelVerif/Lemmas/C20Midpoint.lean", "AurelVerif/Lemmas/C20MidpointHarm.lean",
+              "AurelVerif/Lemmas/C20QuadAll.lean",
+              "AurelVerif/Props/C20b.lean", "AurelVerif/Lemmas/C20Beta.lean", "AurelVerif/Lemmas/C20GramZ.lean",
               "AurelVerif/Lemmas/C20Ortho.lean", "AurelVerif/Lemmas/C20OrthoTable.lean",
               "AurelVerif/Lemmas/C20OrthoTableM2.lean", "AurelVerif/Lemmas/C20OrthoTableM1.lean",
               "AurelVerif/Lemmas/C20OrthoTableZ0.lean", "AurelVerif/Lemmas/C20OrthoTableP1.lean",
@@ -1049,10 +1062,11 @@ def run(ctx):
                     "Spec/Harm.lean (Rodrigues formula, associated Legendre with Condon-Shortley phase) is the textbook definition",
                     "numpy/scipy: cos, sin, exp, sqrt, sc.binom, sc.factorial on small integers; RegularGridInterpolator",
                     "sentinel oracles: scipy eval_jacobi, leggauss, sph_harm_y; sympy Rotation.d (self-check)"]
-    ctx.assumptions += ["orthonormality in l and norm 1 are proven for |s| <= 2 and l, l' <= 12 ONLY (kernel-decided table; "
-                        "norm 1 at m = +-l for all l); beyond: numerical sentinel only",
-                        "NOT proven: a bound on the theta-midpoint quadrature error thetaDefect (closed form only for single "
-                        "sine modes), hence the convergence of the round trip and of Psi4_lm — numerical sentinel only",
+    ctx.assumptions += ["orthonormality is proven about the model function sYlmC (exact real/complex arithmetic, iterated "
+                        "interval integrals) for all integers; the constant Ktheta of the O(1/(Ntheta+1)^2) bound of the "
+                        "theta-midpoint error is rigorous but crude for large l (triangle inequality over coefficient pairs)",
+                        "NOT proven: the spatial interpolation error of non-trilinear fields, hence the convergence of "
+                        "rel['Psi4_lm'] with GRID resolution — numerical sentinel only",
                         "interpolation: only method='linear' on strictly ascending axes with >= 2 nodes is modelled; real "
                         "(non-dyadic) data are subject to round-off, which is not modelled",
                         "floating-point round-off is not modelled (exact real/complex arithmetic in the theorems)",
@@ -1060,9 +1074,10 @@ def run(ctx):
     # prove + audit
     ctx.prove(MODULE, THEOREMS)
     ctx.prove(MODULE_B, THEOREMS_B, timeout=2400)
+    ctx.prove(MODULE_C, THEOREMS_C, timeout=2400)
     ctx.forbidden_scan(LEAN_FILES)
     if ctx.tier == "thorough":
-        ctx.leanchecker([MODULE, MODULE_B])
+        ctx.leanchecker([MODULE, MODULE_B, MODULE_C])
     # correspondence
     for fn in (corr_ylm, corr_grid, corr_modes, corr_history, corr_bounds, corr_interp):
         try:
@@ -1150,22 +1165,33 @@ MANIFEST = {
             "node incl. boundary; nodal values of a trilinear field a0+a1x+a2y+a3z+a4xy+a5xz+a6yz+a7xyz are reproduced "
             "exactly at every target (also by the linear continuation outside); inside the grid the value lies between "
             "the bounds of the 8 corner values. "
-            "NOT proven, watched only numerically on the real code: orthogonality in l when l or l' > 12 "
-            "(Gauss-Legendre x trapezoid quadrature of all pairs up to lmax 6/10 as cross-check), a bound on thetaDefect "
-            "and hence the convergence rate of the round trip and of rel['Psi4_lm'] on an injected pure mode (which also "
-            "involves the interpolation error of non-trilinear fields), interpolation methods other than linear, "
-            "IEEE round-off; independent cross-checks kept: Wigner-d/Jacobi evaluation of every (s,l,m), scipy "
-            "sph_harm_y at s=0, absence of hidden state in sYlm_coefficients / sYlm_reconstruct (several samplings of one "
-            "array shape in one process; on the Gauss-Legendre grid round trip and Gram matrix exact to round-off).",
+            "ALL DEGREES (Props/C20c): (T18) ORTHONORMALITY over the sphere for ALL integers s,l,m,l',m': the inner product "
+            "is 1 iff (l,m)=(l',m') is an admissible mode (|s|<=l, |m|<=l), else 0 — proven by algebraic integration by parts "
+            "in Q[X] on the Rodrigues form of the code's binomial sum, Vandermonde for the norm, and the symmetries "
+            "(s,m)->(-s,-m), s<->m; the table of T9 stays as an independent kernel computation; (T19) the two integer "
+            "identities behind it; (T20) discrete Gram matrix = identity + delta_mm' thetaDefect for all spins and degrees, "
+            "with |thetaDefect| <= sqrt(R/pi) sqrt(R'/pi) 2pi Ktheta pi^3/(24 (Ntheta+1)^2), Ktheta = 2 (sum |coef coef'|) "
+            "(l+l'+1)^2 a computable natural number; (T21) for every spin and every lmax<=Ntheta the round trip "
+            "sYlm_coefficients(sYlm_reconstruct(a)) has the closed-form defect of T13, an explicit O(1/(Ntheta+1)^2) error "
+            "bound, and CONVERGES key by key to a (to 0 on the vanishing modes l<|s|) as Ntheta -> infinity; (T22) the "
+            "composite midpoint rule |sum g(mid) h - int g| <= K M h^3/24 for |g''|<=K. "
+            "NOT proven, watched only numerically on the real code: the spatial interpolation error of non-trilinear "
+            "fields and hence the convergence of rel['Psi4_lm'] on an injected pure mode with GRID resolution (its angular "
+            "part is T21), interpolation methods other than linear, IEEE round-off; the constant Ktheta is crude for large "
+            "l; independent cross-checks kept: Gauss-Legendre x trapezoid quadrature of all pairs up to lmax 6/10, "
+            "Wigner-d/Jacobi evaluation of every (s,l,m), scipy sph_harm_y at s=0, absence of hidden state in "
+            "sYlm_coefficients / sYlm_reconstruct (several samplings of one array shape in one process; on the "
+            "Gauss-Legendre grid round trip and Gram matrix exact to round-off).",
     "note": "Trusted: Lean kernel + propext/Classical.choice/Quot.sound; Mathlib; the hand-written models (sYlm tie is a "
             "float comparison at 1e-12 because cos/sin/sqrt/pi are transcendental: Pythagorean points, s in -2..2, l<=6 "
             "quick / 10 thorough, all |m|<=l and |m|>l, l<|s|; grids/weights bitwise; bounds decisions exact on dyadic "
             "rationals; linear interpolation, its extrapolation branch and scipy's compiled find_indices EXACTLY on dyadic "
             "data with power-of-two spacings); Spec/Harm.lean as the definition of P_l^m; numpy/scipy special functions. "
             "The continuous inner product is the iterated interval integral of the model function sYlmC (real "
-            "normalisation x polynomial in cos(theta/2), sin(theta/2) x e^{im phi}); the orthonormality table covers "
-            "l,l'<=12 only and says so in the theorem name (orthonormal_upto_12). roundtrip_partial still carries its "
-            "hypothesis DiscreteOrthonormal, now PROVEN false on the code's grid (discrete_orthonormal_is_false) and "
-            "replaced by the closed-form defect (roundtrip_defect_closed_form). NaN targets and IEEE round-off are "
-            "outside the model.",
+            "normalisation x polynomial in cos(theta/2), sin(theta/2) x e^{im phi}); orthonormal_upto_12 is the "
+            "kernel-decided table (l,l'<=12 only, says so in its name), orthonormal_all the general theorem. "
+            "roundtrip_partial still carries its hypothesis DiscreteOrthonormal, now PROVEN false on the code's grid "
+            "(discrete_orthonormal_is_false, discrete_orthonormal_is_false_spin_m2) and replaced by the closed-form "
+            "defect with bound and limit (roundtrip_defect_closed_form, roundtrip_converges). NaN targets and IEEE "
+            "round-off are outside the model.",
 }
